@@ -208,6 +208,24 @@ func (v *Verifier) specFunc(se *SpecEnv, name string, c *ast.CallExpr) (Value, b
 	case "eqmod": // a == b modulo the contract's "modulo" hypotheses: a - b rewrites to 0 (a certificate of ideal membership)
 		a := se.specScalar(c.Args[0])
 		b := se.specScalar(c.Args[1])
+		if F.ModQ != nil {
+			// concrete evaluation (replay): the clause speaks about inputs that satisfy the hypotheses
+			hyp := F.True()
+			saved := se.inOld
+			se.inOld = true
+			for _, m := range se.fr.c.Modulo {
+				le, err := parseSpec(m.Name)
+				if err != nil {
+					unsup("modulo %q: %v", m.Name, err)
+				}
+				hyp = F.And(hyp, F.Eq(se.specScalar(le.Parts[0]), se.evalTerm(m.E)))
+			}
+			se.inOld = saved
+			for i := 2; i+1 < len(c.Args); i += 2 {
+				hyp = F.And(hyp, F.Eq(se.specScalar(c.Args[i]), se.specScalar(c.Args[i+1])))
+			}
+			return F.Imp(hyp, F.Eq(a, b)), true
+		}
 		rules := se.moduloRules()
 		// extra hypotheses given inline: eqmod(a, b, lead1, rest1, ...) (the guard of the clause must justify them)
 		if len(c.Args)%2 != 0 {
